@@ -3,6 +3,7 @@ package rules
 import (
 	"fmt"
 	"go/token"
+	"go/types"
 	"sort"
 	"strings"
 
@@ -19,6 +20,7 @@ func init() {
 			"(D2) counted exactly once: adding an entry increments the total and exactly one result slot, once, outside any loop; an entry is added at most once per update and only after validation bounded its result code to the slots that exist; (D3) persist on shutdown, reload on start: a clean close persists the current unit's serialisation under its id, and start-up reloads the unit with the very id it gives the new current unit; " +
 			"(D4) the window is assembled on every read from the database and the live current unit — never from a cache kept across flushes. " +
 			"(D5) the rollover transaction is rolled back only on an edge where an operation returned an error, and the retention handed to the rollover is derived from state that every writer of the retention limit updates. " +
+			"(D7) serialize hands out a snapshot: none of the slices/maps of the serialized unit is the live unit's own (the snapshot is encoded and summed without the unit's lock). " +
 			"Not decided: hour/window arithmetic (id - limit, first id, gaps of many hours), 'daily never exceeds totals', top-N merging.",
 		RuleText:    "Lock dominance, value identity and referrer sets on SSA, provenance of the assembled window, increment counting.",
 		Assumptions: []string{"bbolt transactions are atomic", "encoding/gob round-trips unitDB"},
@@ -114,7 +116,7 @@ func runC09(c *Ctx) {
 				"the serialised unit goes straight to the database",
 				fmt.Sprintf("the serialised unit is handed to %v before it is persisted: merging it with what the database already holds double-counts queries that were reloaded at start-up", extra))
 		}
-		r.Check(len(core.CallsTo(fdb, kLoadUnit)) == 0, "C09-D1", "rollover-does-not-read-back", p.FnPos(fdb), "the rollover does not read units back from the database", "the rollover reads a unit back from the database (merging it double-counts reloaded queries)")
+		r.Check(len(core.CallsToDeep(fdb, kLoadUnit)) == 0, "C09-D1", "rollover-does-not-read-back", p.FnPos(fdb), "the rollover does not read units back from the database", "the rollover reads a unit back from the database (merging it double-counts reloaded queries)")
 		// swap happens
 		swap := false
 		for _, b := range fdb.Blocks {
@@ -353,6 +355,7 @@ func runC09(c *Ctx) {
 	r.Floor("C09-D4", "loadUnits-returns", n, 2)
 	c09Rollover(c)
 	c09Totals(c)
+	c09Snapshot(c)
 }
 
 // c09Rollover: D5.  The rollover transaction is abandoned only because of an
@@ -504,4 +507,51 @@ func c09Totals(c *Ctx) {
 	r.Check(n >= 4 && len(bad) == 0, "C09-D6", "totals-not-from-series", p.FnPos(fn),
 		fmt.Sprintf("the %d total counters are not derived from the (day-aligned, possibly shortened) series", n),
 		"a total is computed from a per-interval series, which is cut to whole days for long windows: queries counted in the oldest hours of the window drop out of the total", bad...)
+}
+
+// c09Snapshot: D7 — serialize hands out a snapshot of the unit: the unit's
+// counters keep changing under the unit's own lock while the snapshot is
+// encoded or summed without it, so no slice or map of the snapshot may be the
+// unit's own.
+func c09Snapshot(c *Ctx) {
+	p, r := c.P, c.R
+	fn := p.Fn("(*stats.unit).serialize")
+	if fn == nil {
+		r.Undecided("C09-D7", "serialize", "-", "anchor not found")
+		return
+	}
+	n := 0
+	var shared []string
+	for _, b := range fn.Blocks {
+		for _, in := range b.Instrs {
+			st, ok := in.(*ssa.Store)
+			if !ok {
+				continue
+			}
+			fr, ok := core.FieldOfAddr(st.Addr)
+			if !ok || fr.Type != "stats.unitDB" {
+				continue
+			}
+			switch st.Val.Type().Underlying().(type) {
+			case *types.Slice, *types.Map, *types.Pointer:
+			default:
+				continue
+			}
+			n++
+			for _, leaf := range core.FlattenPhi(core.ResolveCellLoad(st.Val)) {
+				if src, _, isF := core.LoadedField(leaf); isF && src.Type == "stats.unit" {
+					shared = append(shared, fr.Field+" = unit."+src.Field+" at "+p.InstrPos(in))
+				}
+				// a re-slice of the unit's own array is the unit's own memory too
+				if sl, isS := leaf.(*ssa.Slice); isS {
+					if src, _, isF := core.LoadedField(sl.X); isF && src.Type == "stats.unit" {
+						shared = append(shared, fr.Field+" = unit."+src.Field+"[:] at "+p.InstrPos(in))
+					}
+				}
+			}
+		}
+	}
+	r.Check(n >= 4 && len(shared) == 0, "C09-D7", "snapshot-shares-nothing-with-the-unit", p.FnPos(fn),
+		fmt.Sprintf("none of the %d slices of the serialized unit is the live unit's own", n),
+		"the serialized unit shares memory with the live unit: it is encoded and summed without the unit's lock while DNS workers keep counting, so stored and reported counts are torn", shared...)
 }
